@@ -124,7 +124,12 @@ def main(tier_):
                     focus.add(e.get("r_id"))
         acts = race.repertoire(nodes, focus=focus)
         stats["baseline_relevant_syscalls_" + bname] += n_rel
-        all_cases += race.make_sweep(tname, nodes, call, feat, n_rel, acts, pairs=not quick, rnd=rnd, max_pairs=None if not quick else 0)
+        all_cases += race.make_sweep(tname, nodes, call, feat, n_rel, acts, pairs=False)
+        if not quick:
+            # flip-flop pairs (action at k1, its inverse at k2 > k1) for the priority actions; bounded per call
+            pa = [a for a in acts if a.get("prio")]
+            pairs = [c for c in race.make_sweep(tname, nodes, call, feat, n_rel, pa, pairs=True, rnd=rnd, max_pairs=600) if len(c["meta"]["ks"]) == 2]
+            all_cases += pairs
     stats["sweep_space"] = len(all_cases)
     if quick:
         # every placement of the priority actions (moving a directory of the walk out of the root,
